@@ -12,6 +12,7 @@ func init() {
 	vHarnesses["VH_C19_fmt"] = VH_C19_fmt
 	vHarnesses["VH_C19_longline"] = VH_C19_longline
 	vHarnesses["VH_C19_cross"] = VH_C19_cross
+	vHarnesses["VH_C19_custom"] = VH_C19_custom
 }
 
 // vLineCol is the oracle's definition of "line and column of an offset":
@@ -224,5 +225,79 @@ func VH_C19_cross() {
 	}
 	if e3 != nil {
 		vObserve("e3", e3.Error())
+	}
+}
+
+// texts in which a custom dice term with multi-byte runes (or a line break)
+// is consumed before the syntax error
+var vC19CustomSources = []string{
+	"{a: 优势骰3, b: (",
+	"`{优势骰3} ` + (",
+	"优势骰3; (1",
+	"x = 优势骰3 + 优势骰4; [1, 2",
+	"{a: 行\n骰3, b: (",
+	"优势骰3 + 1; break",
+	"E3; (1",
+	"[优势骰3, (",
+	"{a: 优势骰3 + 优势骰4, b: [",
+	"(优势骰3 + (",
+	"优势骰3 + 优势骰3; continue",
+	"{a: 优势骰3,\n b: 优势骰4, c: (",
+}
+
+//vh:prop=C19 tiers=quick,thorough sigkeys=src,kind,lang budget_s=600 bounds="12 texts (8 rejected as a whole) in which a registered custom dice syntax (regex or stream parser) consumes multi-byte or multi-line text before the error, 3 languages: the reported offset lies in the input and (line, column) are those of that offset by the oracle's definition, for every reported error"
+func VH_C19_custom() {
+	src := vC19CustomSources[vChoice("src", len(vC19CustomSources))]
+	vm := NewVM()
+	vm.Config.ParseErrorLanguage = vChoice("lang", 3)
+	handler := func(ctx *Context, groups []string, payload any) (*VMValue, string, error) {
+		return NewIntVal(3), "", nil
+	}
+	if vChoice("kind", 2) == 0 {
+		vAssert(vm.RegCustomDice(`(优势骰|行\n骰|E)(\d)`, handler) == nil, "regex-registers")
+	} else {
+		vAssert(vm.RegCustomDiceParser(func(ctx *Context, s *CustomDiceStream) (*CustomDiceParseResult, error) {
+			r, ok := s.Read()
+			if !ok || (r != '优' && r != '行' && r != 'E') {
+				return nil, nil
+			}
+			for {
+				r, ok := s.Read()
+				if !ok {
+					return nil, nil
+				}
+				if r >= '0' && r <= '9' {
+					return &CustomDiceParseResult{Matched: true}, nil
+				}
+				if r != '势' && r != '骰' && r != '\n' {
+					return nil, nil
+				}
+			}
+		}, handler) == nil, "parser-registers")
+	}
+	err := vm.Parse(src)
+	vReach("parsed")
+	if err == nil {
+		return // a valid prefix was accepted (C03's concern)
+	}
+	vReach("rejected")
+	el, ok := err.(errList)
+	if !ok {
+		return
+	}
+	b := []byte(src)
+	for _, e := range el {
+		pe, ok := e.(*parserError)
+		if !ok {
+			continue
+		}
+		off := pe.pos.offset
+		vAssert(off >= 0 && off <= len(b), "offset-within-input")
+		wl, wc := vLineCol(b, off)
+		if off < len(b) && b[off] == '\n' {
+			continue // recorded finding: an error at a newline byte
+		}
+		vAssert(pe.pos.line == wl, "line-is-the-line-of-the-offset")
+		vAssert(pe.pos.col == wc, "column-is-the-column-of-the-offset")
 	}
 }
